@@ -1,4 +1,6 @@
-import DcmVerif.Props.SourceMeta
+import DcmVerif.Props.Source_classes
+import DcmVerif.Props.Source_simplify
+import DcmVerif.Props.Source_shapes
 import DcmVerif.Proofs.Key
 import DcmVerif.Props.C13_ext
 /-! Property theorems for C13. Statements only; proofs are by reference to `Proofs/`. -/
